@@ -24,6 +24,11 @@ pub assume_specification[ u8::is_ascii_alphabetic ](b: &u8) -> (r: bool)
 pub assume_specification[ u8::is_ascii_alphanumeric ](b: &u8) -> (r: bool)
     ensures r == ((0x41 <= *b <= 0x5a) || (0x61 <= *b <= 0x7a) || (0x30 <= *b <= 0x39));
 
+pub assume_specification[ u8::is_ascii_digit ](b: &u8) -> (r: bool) ensures r == (0x30 <= *b <= 0x39);
+pub assume_specification[ u8::is_ascii_uppercase ](b: &u8) -> (r: bool) ensures r == (0x41 <= *b <= 0x5a);
+pub assume_specification[ u8::is_ascii_lowercase ](b: &u8) -> (r: bool) ensures r == (0x61 <= *b <= 0x7a);
+pub assume_specification[ u8::is_ascii ](b: &u8) -> (r: bool) ensures r == (*b <= 0x7f);
+
 // ---------------- shims ----------------
 pub struct SourceSpan { pub x: u64 }
 pub struct InvalidNameError { pub name: String, pub location: Option<SourceSpan> }
